@@ -3,7 +3,6 @@ package main
 import (
 	"context"
 	"fmt"
-	"runtime"
 	"strings"
 	"sync"
 
@@ -16,13 +15,6 @@ type progSpec struct {
 	quirk string
 	nvec  int // argument vectors per plain function
 	nseq  int // call sequences per stateful function
-}
-
-type layerStats struct {
-	mu       sync.Mutex
-	gen      int
-	accepted int
-	quirks   int
 }
 
 func callsToStrings(calls [][]Value) [][]string {
@@ -54,9 +46,35 @@ type witness struct {
 
 const minimiseBudget = 220
 
+var (
+	classMu sync.Mutex
+	classes = map[string]int{}
+)
+
+// classOf: the signature with concrete types replaced by T and the shape dropped; used
+// only for the human-readable summary in the evidence file.
+func classOf(sig string) string {
+	parts := strings.SplitN(sig, ":", 5)
+	if len(parts) > 4 {
+		parts = parts[:len(parts)-1]
+	}
+	return reType.ReplaceAllString(strings.Join(parts, ":"), "T")
+}
+
+func noteClass(h *harness.H, sig string) {
+	classMu.Lock()
+	classes[classOf(sig)]++
+	cp := make(map[string]int, len(classes))
+	for k, v := range classes {
+		cp[k] = v
+	}
+	classMu.Unlock()
+	h.SetExtra("violation_classes_types_abstracted", cp)
+}
+
 // report minimises a failing case and files the violation.
-func report(ctx context.Context, h *harness.H, layer string, cn int, c Case, vd Verdict, origSrc string, quirk string) {
-	mc, mvd, builds := minimize(ctx, c, vd, minimiseBudget)
+func report(ctx context.Context, env *hostEnv, h Sink, layer string, cn int, c Case, vd Verdict, origSrc string, quirk string) {
+	mc, mvd, builds := minimize(ctx, env, c, vd, minimiseBudget)
 	h.Count("minimisations", 1)
 	h.Count("minimise_builds", builds)
 	sig := signatureOf(mc, mvd)
@@ -121,21 +139,18 @@ func opTypeCoverage(f *Func, into map[string]struct{}) {
 	})
 }
 
-func checkProgram(ctx context.Context, h *harness.H, layer string, cn int, r *prng.R, sp progSpec, st *layerStats) {
+func checkProgram(ctx context.Context, env *hostEnv, h Sink, layer string, cn int, r *prng.R, sp progSpec) {
 	src := sp.prog.String()
-	st.mu.Lock()
-	st.gen++
-	if sp.quirk != "" {
-		st.quirks++
+	if sp.quirk == "" {
+		h.Count("plain_programs_generated", 1)
 	}
-	st.mu.Unlock()
-	b, pmsg := buildSafe(ctx, src)
+	b, pmsg := buildSafe(ctx, env, src)
 	if b == nil {
 		// find a single function that reproduces the panic
 		for _, f := range sp.prog.Funcs {
 			c := Case{F: f}
-			if vd := judgeCase(ctx, c); vd.Kind == vdPanic {
-				report(ctx, h, layer, cn, c, vd, src, sp.quirk)
+			if vd := judgeCase(ctx, env, c); vd.Kind == vdPanic {
+				report(ctx, env, h, layer, cn, c, vd, src, sp.quirk)
 				return
 			}
 		}
@@ -149,9 +164,7 @@ func checkProgram(ctx context.Context, h *harness.H, layer string, cn int, r *pr
 			h.Count("quirk_rejected_"+sp.quirk, 1)
 		} else {
 			h.Seen("reject_reasons", b.stage.String()+":"+normMsg(b.diag))
-			if h.SeenCount("reject_reasons") <= 12 {
-				fmt.Printf("NOTE: rejected (%s) %s | %s\n", b.stage, firstLine(b.diag), head(oneLine(src), 400))
-			}
+			h.Note(fmt.Sprintf("rejected (%s) %s | %s", b.stage, firstLine(b.diag), head(oneLine(src), 400)))
 		}
 		if strings.TrimSpace(b.diag) == "" {
 			h.Violation(layer, cn, "c19:rejected-without-diagnostics:"+b.stage.String(), "source rejected with empty diagnostics", witness{Source: src})
@@ -162,16 +175,14 @@ func checkProgram(ctx context.Context, h *harness.H, layer string, cn int, r *pr
 	if sp.quirk != "" {
 		h.Count("quirk_accepted_"+sp.quirk, 1)
 	} else {
-		st.mu.Lock()
-		st.accepted++
-		st.mu.Unlock()
+		h.Count("plain_programs_accepted", 1)
 	}
 	if b.stage != stOK {
 		h.Count("pipeline_failures", 1)
 		for _, f := range sp.prog.Funcs {
 			c := Case{F: f}
-			if vd := judgeCase(ctx, c); vd.Kind == vdPipeline && vd.Stage == b.stage {
-				report(ctx, h, layer, cn, c, vd, src, sp.quirk)
+			if vd := judgeCase(ctx, env, c); vd.Kind == vdPipeline && vd.Stage == b.stage {
+				report(ctx, env, h, layer, cn, c, vd, src, sp.quirk)
 				return
 			}
 		}
@@ -188,7 +199,7 @@ func checkProgram(ctx context.Context, h *harness.H, layer string, cn int, r *pr
 		h.Count("functions_checked", 1)
 		opTypeCoverage(f, cov)
 		if p := exportProblem(b, f); p != "" {
-			report(ctx, h, layer, cn, Case{F: f}, Verdict{Kind: vdExport, Msg: p}, src, sp.quirk)
+			report(ctx, env, h, layer, cn, Case{F: f}, Verdict{Kind: vdExport, Msg: p}, src, sp.quirk)
 			continue
 		}
 		if f.NoRef {
@@ -217,7 +228,7 @@ func checkProgram(ctx context.Context, h *harness.H, layer string, cn int, r *pr
 			switch vd.Kind {
 			case vdTimeout:
 				h.Inconclusive("real-call-timeout")
-				fmt.Printf("NOTE: real call timed out: %s args %v\n", oneLine(f.String()), callsToStrings(c.Calls))
+				h.Note(fmt.Sprintf("real call timed out: %s args %v", oneLine(f.String()), callsToStrings(c.Calls)))
 				// the module is closed after a timeout: abandon this program
 				flush(h, tagCount, silentCount, cov, judged, agreeErr, mism)
 				return
@@ -227,9 +238,9 @@ func checkProgram(ctx context.Context, h *harness.H, layer string, cn int, r *pr
 				if !reported[key] {
 					reported[key] = true
 					// reproduce in isolation (single-function program), then minimise
-					iso := judgeCase(ctx, c)
+					iso := judgeCase(ctx, env, c)
 					if iso.Kind == vdMismatch && iso.MKind == vd.MKind {
-						report(ctx, h, layer, cn, c, iso, src, sp.quirk)
+						report(ctx, env, h, layer, cn, c, iso, src, sp.quirk)
 					} else {
 						h.Violation(layer, cn, "c19:"+vd.MKind+":not-reproducible-in-isolation",
 							fmt.Sprintf("mismatch inside a multi-function program (spec %s, real %s) does not reproduce with the function alone", vd.Ref, vd.Real),
@@ -246,7 +257,7 @@ func checkProgram(ctx context.Context, h *harness.H, layer string, cn int, r *pr
 	flush(h, tagCount, silentCount, cov, judged, agreeErr, mism)
 }
 
-func flush(h *harness.H, tags map[string]struct{}, silentCount map[string]int, cov map[string]struct{}, judged, agreeErr, mism int) {
+func flush(h Sink, tags map[string]struct{}, silentCount map[string]int, cov map[string]struct{}, judged, agreeErr, mism int) {
 	for t := range tags {
 		h.Seen("reference_features", t)
 	}
@@ -268,9 +279,13 @@ func flush(h *harness.H, tags map[string]struct{}, silentCount map[string]int, c
 func runCallsCollect(ctx context.Context, b *built, c Case, tags map[string]struct{}) Verdict {
 	vd := Verdict{Kind: vdOK, Silent: map[string]int{}}
 	in := newInterp(c.F)
+	acc := map[string]struct{}{}
 	b.state.SetNodeKey(freshKey())
 	for i, args := range c.Calls {
 		ref := in.Call(args)
+		for _, t := range in.Tags() {
+			acc[t] = struct{}{}
+		}
 		if ref.Kind == oSilent {
 			vd.Silent[ref.Reason]++
 			if c.F.Stateful {
@@ -288,7 +303,7 @@ func runCallsCollect(ctx context.Context, b *built, c Case, tags map[string]stru
 			tags[t] = struct{}{}
 		}
 		if mk := compareCall(ref, real); mk != "" {
-			vd.Kind, vd.CallIdx, vd.MKind, vd.Ref, vd.Real, vd.Tags = vdMismatch, i, mk, ref, real, in.Tags()
+			vd.Kind, vd.CallIdx, vd.MKind, vd.Ref, vd.Real, vd.Tags = vdMismatch, i, mk, ref, real, seqTags(acc, in)
 			c.Calls = c.Calls[:i+1]
 			return vd
 		}
@@ -300,49 +315,4 @@ func runCallsCollect(ctx context.Context, b *built, c Case, tags map[string]stru
 		}
 	}
 	return vd
-}
-
-// runLayer runs n generated programs in parallel (each case has its own PRNG; results go
-// through the thread-safe harness).
-func runLayer(h *harness.H, layer string, n int, mk func(r *prng.R, c int) progSpec) {
-	ctx := context.Background()
-	st := &layerStats{}
-	workers := runtime.GOMAXPROCS(0)
-	if workers > 16 {
-		workers = 16
-	}
-	if _, replaying := h.Replaying(); replaying {
-		workers = 1
-	}
-	jobs := make(chan int)
-	var wg sync.WaitGroup
-	for w := 0; w < workers; w++ {
-		wg.Add(1)
-		go func() {
-			defer wg.Done()
-			for c := range jobs {
-				r := h.Rand(layer, c)
-				sp := mk(r, c)
-				h.Eval()
-				h.Count("programs_generated", 1)
-				checkProgram(ctx, h, layer, c, r, sp, st)
-			}
-		}()
-	}
-	for c := 0; c < n; c++ {
-		if h.Skip(layer, c) {
-			continue
-		}
-		jobs <- c
-	}
-	close(jobs)
-	wg.Wait()
-	plain := st.gen - st.quirks
-	if _, replaying := h.Replaying(); !replaying && plain >= 50 {
-		rate := float64(st.accepted) / float64(plain)
-		h.SetExtra("acceptance_rate_"+layer, rate)
-		if rate < 0.6 {
-			panic(fmt.Sprintf("layer %s: analyzer accepted only %.0f%% of generated programs (<60%%): the generator is wrong", layer, rate*100))
-		}
-	}
 }
